@@ -8,7 +8,7 @@ from vlib.facts import kids, strip, walk, is_call, call_args, call_object, calle
 from vlib.paren import Paren, ANY, CLEAN
 from vlib.cfg import write_target
 from vlib.work import AnalysisBroken
-from vlib.exprterm import Builder, TermError, NF, Poly, normal_form, show, member_chain
+from vlib.exprterm import Builder, TermError, NF, Poly, normal_form, show, member_chain, dsl_soundness
 
 UNITS = ["src/occa/internal/lang/builtins/attributes/dim.cpp", "src/occa/internal/lang/operator.cpp", "src/occa/internal/lang/expr/expr.cpp"]
 D = "occa::lang::attributes::dim::"
@@ -97,6 +97,8 @@ def run(ctx):
         R.ob("C19-R2", ok, ac.q, "closed form of the subscript, %d dimension(s)" % K, f.site(kids(f.d["body"])[0]) if kids(f.d["body"]) else f.relfile,
              "x(...) -> x[%r]" % got if ok else
              "x(...) is rewritten to %s = %r, the documented mixed-radix index is %r: some index lands on another element (not a bijection onto [0, D0*...*Dk))" % (show(t), got, want))
+    R.rule("C19-R3", "the expression DSL the fold is written in builds what its operators say (a + b -> `+` node, parens -> wrapInParentheses, a[b] -> subscript)", floor=15)
+    dsl_soundness(prog, lambda ok, fn, key, site, detail: R.ob("C19-R3", ok, fn, key, site, detail))
     chk = [c for c in f.walk() if is_call(c) and callee(c) == D + "callHasValidIndices"]
     R.ob("C19-R2", len(chk) == 1, ac.q, "argument count checked against the dimension count", f.site(chk[0]) if chk else f.relfile, "callHasValidIndices before the fold")
     hv = prog.fn(D + "callHasValidIndices")
